@@ -1184,6 +1184,18 @@ def final_adddel(d, ex, res, md, spec):
     if st is None: return None
     if d.network().order() != n0 + st['adds'] - st['dels']:
         return f"final order {d.network().order()} != initial {n0} + {st['adds']} additions - {st['dels']} deletions"
+    # what a compartmented component reports at the end is the population that is there at the end (nodes born and dead included)
+    g = d.network()
+    for q in ex.cms:
+        if isinstance(q, ScriptProc): continue
+        try:
+            r = q.results()
+        except Exception as ex_:
+            return f"{type(q).__name__}.results() raised {type(ex_).__name__}: {ex_}"
+        for c in q._compartments:
+            want = sum(1 for n in g.nodes() if g.nodes[n].get(q.COMPARTMENT) == c)
+            if c in r and r[c] != want:
+                return f"{type(q).__name__} reports {r[c]} nodes in {c.split('.')[-1]}, the final network has {want} (after {st['adds']} additions and {st['dels']} deletions)"
     return None
 
 
